@@ -210,6 +210,9 @@ def geo_worlds(tier: str, seed: int, *, convs=W.ALL_CONVS, big: bool = True) -> 
             wd, h = (rng.randint(3, 6), rng.randint(3, 5)) if big else (rng.randint(2, 3), rng.randint(2, 3))
             m = W.random_mesh(rng, wd, h, shape=rng.choice(["rect", "skew", "skew2"]))
             out.append(mesh_world(m, enc=rng.choice(encs), edges=rng.random() < .5, centres=rng.random() < .3))
+    for k, w in enumerate(out):
+        if w["conv"] == "ugrid" and k % 2 == 0:
+            w["first_var"] = "eta"      # a variable with the (size 2) time dimension declared before the mesh variables
     # other legal names for dimensions and coordinate variables (every third world)
     NAMES = {"cf1d": [{"lat": "latitude", "lon": "longitude", "ydim": "latitude", "xdim": "longitude", "lat_bounds": "latitude_bounds", "lon_bounds": "longitude_bounds"},
                       {"lat": "nav_lat", "lon": "nav_lon", "ydim": "rows", "xdim": "cols"}],     # coordinates that are not dimension coordinates
